@@ -71,4 +71,38 @@ theorem mism_to_occl {f : Nat} (h9 : f.testBit 9 = true) (h8 : f.testBit 8 = fal
     f - mismatch + occlusion = replaceBit f mismatch occlusion := by
   rw [mismatch_pow, occlusion_pow]; exact sub_add_eq_replaceBit h9 h8
 
+
+/-! ### `-= OLD` followed by `+= NEW` or `|= NEW` -/
+
+theorem raise_zero (op : RaiseOp) (g : Nat) : raise op g 0 = g := by cases op <;> simp [raise]
+
+/-- Removing bit `i` (set) and raising bit `j`: with `|=` always, with `+=` when bit `j` was clear, the word has
+    bit `i` replaced by bit `j` and every other bit kept. -/
+theorem raise_sub_eq_replaceBit {op : RaiseOp} {f i j : Nat} (hi : f.testBit i = true)
+    (hj : op = .add → f.testBit j = false) : raise op (f - 2 ^ i) (2 ^ j) = replaceBit f (2 ^ i) (2 ^ j) := by
+  cases op with
+  | add => exact sub_add_eq_replaceBit hi (hj rfl)
+  | or =>
+    apply Nat.eq_of_testBit_eq; intro m
+    simp only [raise, Nat.testBit_or, sub_two_pow_testBit hi, Nat.testBit_two_pow, testBit_replaceBit]
+    by_cases hm : j = m
+    · subst hm; simp
+    · have : ¬ m = j := fun h => hm h.symm
+      simp [hm, this]
+
+/-- `-= OCCLUSION; (+=|‖=) FILLED_OCCLUSION` -/
+theorem upd_occl {op : RaiseOp} {f : Nat} (h8 : f.testBit 8 = true) (h4 : op = .add → f.testBit 4 = false) :
+    raise op (f - occlusion) filledOcclusion = replaceBit f occlusion filledOcclusion := by
+  rw [occlusion_pow, filledOcclusion_pow]; exact raise_sub_eq_replaceBit h8 h4
+
+/-- `-= MISMATCH; (+=|‖=) FILLED_MISMATCH` -/
+theorem upd_mism {op : RaiseOp} {f : Nat} (h9 : f.testBit 9 = true) (h5 : op = .add → f.testBit 5 = false) :
+    raise op (f - mismatch) filledMismatch = replaceBit f mismatch filledMismatch := by
+  rw [mismatch_pow, filledMismatch_pow]; exact raise_sub_eq_replaceBit h9 h5
+
+/-- `-= MISMATCH; (+=|‖=) OCCLUSION` -/
+theorem upd_mism_occl {op : RaiseOp} {f : Nat} (h9 : f.testBit 9 = true) (h8 : f.testBit 8 = false) :
+    raise op (f - mismatch) occlusion = replaceBit f mismatch occlusion := by
+  rw [mismatch_pow, occlusion_pow]; exact raise_sub_eq_replaceBit h9 (fun _ => h8)
+
 end Pandora.Interp
